@@ -49,6 +49,11 @@ CLAIMED = {
    note='Trusted: Coq kernel; hand-written Model/Update.v and reference encoder Model/RefEncUpdate.v (tied by a three-way differential run: an independent Python reference encoder generates valid messages of every family/ADD-PATH combination, implementation and extracted model decode them, both are compared with each other and with the generated content). Human-readable display wrappers are exercised only.',
    technique='Coq proof: framing lemmas over an independent reference encoder, decode-of-encode theorems per accessor; three-way differential correspondence on generated valid messages',
    design='5/C01'),
+ 'C06': dict(
+   text='Machine-checked proof (Coq 8.16) on the UpdateBuilder model: every take_message step that leaves a remainder removes at least one NLRI, so into_messages and the PDU iterator terminate within (number of NLRI + 1) steps for every input; a successful run is a sequence of batches whose announcements and withdrawals concatenate to the input (each once, in order), every batch with announcements has the full attribute map and the next hop, no batch is empty unless the input was; every produced message is at most MAX_PDU octets, equals the reference encoding of (MP_REACH, MP_UNREACH, attribute map), has length calculate_pdu_length, and is decoded by the C01 decoder model to exactly the batch (length fields match the octets, no conventional NLRI); a PduTooLarge error is reported only for unrepresentable input.',
+   note='Trusted: Coq kernel; hand-written Model/Builder.v; MAX_PDU / 4000 / the fixed part of `limit` generated from update_builder.rs, mirrored function bodies pinned by hash (tools/gen_builder.py); tied by a differential run on builder scripts landing on and around every split threshold for all 26 NLRI types and every next-hop form, plus an independent Python splitter judging the implementation output alone. usize overflow of the length sums is not modelled.',
+   technique='Coq proof: progress measure, conservation invariant over the batch plan, byte-level refinement to the reference encoder and reuse of the C01 decode theorems; differential correspondence on builder scripts',
+   design='5/C06'),
  'C02': dict(
    text='Machine-checked proof (Coq 8.16): for every byte string of any length and every session configuration UPDATE decoding returns a message or an error, never a panic (every slice index, unwrap, with_range and u8 operation of the modelled code is an explicit Panic branch shown unreachable); every NLRI iterator (conventional and MP) ends after at most as many items as the section has octets, an item-level error is its last item and no item is a panic; path attribute items and their to_owned conversion, the typed getters and the four community iterators never panic; the all-or-nothing vectors succeed exactly when every item does and fail exactly when an item fails.',
    note='Trusted: Coq kernel; hand-written Model/Update.v over the C04/C05/C13 models (tied by a differential run on mutated valid messages of every family, grammar walks with adversarial length fields, random octets, random ADD-PATH maps; every accessor outcome compared, PANIC/HANG on the implementation is a failing input by itself). Accessors that are thin wrappers (typed_*, find_next_hop, human-readable variants) are exercised only.',
